@@ -4,6 +4,7 @@ import Driver.Store
 import Driver.Wire
 import Driver.Multi
 import Driver.Rec
+import Driver.Up
 /- Line-protocol driver: `driver <topic>` reads one op per line on stdin, prints one line per op. -/
 open Driver
 
@@ -29,4 +30,5 @@ def main (args : List String) : IO UInt32 := do
   | ["wire"] => loop stdin stdout Driver.Wire.step {}; return 0
   | ["multi"] => loop stdin stdout Driver.Multi.step {}; return 0
   | ["rec"] => loop stdin stdout Driver.Rec.step {}; return 0
+  | ["up"] => loop stdin stdout Driver.Up.step {}; return 0
   | _ => IO.eprintln "usage: driver <topic>"; return 2
